@@ -340,6 +340,10 @@ def deep_sources(body, o, depth=8, seen=None):
                 subs.append(rv['pl'])
             elif rv['k'] == 'agg' and len(rv['ops']) == 1:
                 subs.append(rv['ops'][0])
+            elif rv['k'] == 'discr':
+                subs.append(rv['pl'])
+            elif rv['k'] in ('un',):
+                subs.append(rv['o'])
         elif st['k'] == 'call':
             callees.add(callee_of(st) or callee_generic(st) or '?')
             if st['args']:
